@@ -165,14 +165,17 @@ impl Prop for C17 {
         for mode in 0..3 {
             for init in [Init::Absent, Init::Empty, Init::NonEmpty, Init::Directory, Init::UnderFile, Init::NoParent] {
                 for kind in 0..3 {
-                    v.push(C17Case::Mode { mode, init, kind, n: 700, seed: 7, chunk: 97 });
+                    // new data longer than, shorter than, and absent against the old content
+                    for n in [700u16, 3, 0] {
+                        v.push(C17Case::Mode { mode, init, kind, n, seed: 7, chunk: 97 });
+                    }
                 }
             }
         }
         v
     }
     fn exhaustive_subdomains(&self) -> Vec<String> {
-        vec!["open modes: {Create, Overwrite, Append} x {absent, empty, non-empty, directory, path under a regular file, missing parent} x {FileSink<u8>, FileSink<f32>, NoCopyFileSink<String>}".into()]
+        vec!["open modes: {Create, Overwrite, Append} x {absent, empty, non-empty, directory, path under a regular file, missing parent} x {FileSink<u8>, FileSink<f32>, NoCopyFileSink<String>} x new data {longer than the old content, shorter, none}".into()]
     }
     fn run(&self, case: &C17Case, ctx: &mut Ctx) {
         match case {
@@ -185,7 +188,7 @@ impl Prop for C17 {
         }
     }
     fn rule(&self) -> String {
-        "enumerated: open modes x initial file states x sink kinds (54 combinations), plus generated data lengths/chunkings; fault enumeration: a child process streams a seeded sequence through the sink and acknowledges the running count of consumed samples (raw write(2)) after every work() that returns; the parent SIGKILLs it after a generated number of acknowledgements plus a generated busy-wait. Oracle: constructor result and final file content equal a model of the documented modes (Create fails iff the path exists; Overwrite leaves exactly the new data; Append keeps old content and appends, creating the file if absent; structural impossibilities are Err); after a kill the file is (old content for Append ++) a byte prefix of the serialised stream, at least as long as the last acknowledged count. In-process crash-point enumeration ('durable' cases): FileSink<u8|f32|Complex|u32> on streams of 8 KiB, 64 KiB, 1 MiB and the default 4 MB, fed batches of 1..200 000 samples; after *every* work() that returns, the file is read through a second descriptor (exactly what a SIGKILL at that instant leaves behind, since the page cache survives the process) and must hold all consumed samples and be a prefix of the serialised stream. Crash points inside a call ('blocked' cases): the destination is a FIFO drained by the harness in pieces, so the sink blocks in write(2) mid-call while the harness samples how much of the stream counts as consumed: bytes consumed <= bytes read from the FIFO + pipe capacity (+ one packet for the packet sink) at every observation - an invariant of any sink that consumes after writing, so timing can hide a violation but not produce one; and /dev/full, where the write fails: nothing of that call may count as consumed (stream sink). Non-trivial: a FIFO case with more data than the pipe holds, a durable case with >= 2 work() returns, a mode case whose initial state is not 'absent', or a kill that landed after >= 1 acknowledgement and before the end; distinct = hash of the case (kill timing is not part of the hash).".into()
+        "enumerated: open modes x initial file states x sink kinds x {700, 3, 0} units of new data (162 combinations), plus generated data lengths/chunkings; fault enumeration: a child process streams a seeded sequence through the sink and acknowledges the running count of consumed samples (raw write(2)) after every work() that returns; the parent SIGKILLs it after a generated number of acknowledgements plus a generated busy-wait. Oracle: constructor result and final file content equal a model of the documented modes (Create fails iff the path exists; Overwrite leaves exactly the new data; Append keeps old content and appends, creating the file if absent; structural impossibilities are Err); after a kill the file is (old content for Append ++) a byte prefix of the serialised stream, at least as long as the last acknowledged count. In-process crash-point enumeration ('durable' cases): FileSink<u8|f32|Complex|u32> on streams of 8 KiB, 64 KiB, 1 MiB and the default 4 MB, fed batches of 1..200 000 samples; after *every* work() that returns, the file is read through a second descriptor (exactly what a SIGKILL at that instant leaves behind, since the page cache survives the process) and must hold all consumed samples and be a prefix of the serialised stream. Crash points inside a call ('blocked' cases): the destination is a FIFO drained by the harness in pieces, so the sink blocks in write(2) mid-call while the harness samples how much of the stream counts as consumed: bytes consumed <= bytes read from the FIFO + pipe capacity (+ one packet for the packet sink) at every observation - an invariant of any sink that consumes after writing, so timing can hide a violation but not produce one; and /dev/full, where the write fails: nothing of that call may count as consumed (stream sink). Non-trivial: a FIFO case with more data than the pipe holds, a durable case with >= 2 work() returns, a mode case whose initial state is not 'absent', or a kill that landed after >= 1 acknowledgement and before the end; distinct = hash of the case (kill timing is not part of the hash).".into()
     }
     fn assumptions(&self) -> Vec<String> {
         vec![
